@@ -48,7 +48,7 @@ Lemma cum_lsum ps k : cum ps k = lsum (firstn k ps). Proof. reflexivity. Qed.
 Lemma cum_0 ps : cum ps O = 0. Proof. reflexivity. Qed.
 Lemma cum_S ps : forall k, cum ps (S k) = cum ps k + nth k ps 0.
 Proof. induction ps as [|a ps IH]; intros k.
-  - rewrite !cum_lsum. cbn [firstn]. rewrite firstn_nil, lsum_nil. destruct k; cbn [nth]; ring.
+  - rewrite !cum_lsum. rewrite ?firstn_cons, ?firstn_O. rewrite !firstn_nil, lsum_nil. destruct k; cbn [nth]; ring.
   - destruct k as [|k].
     + rewrite !cum_lsum. cbn [firstn nth]. rewrite lsum_cons, lsum_nil. ring.
     + rewrite !cum_lsum. rewrite !firstn_cons. cbn [nth]. rewrite !lsum_cons.
@@ -71,20 +71,20 @@ Proof. induction t as [|a t IH]; intros c r idx i H; cbn [C14_DataGen.rn2d_go] i
   destruct (flt F r (c + a)) eqn:E.
   - injection H as <-. exists O. split; [|split; [|split]].
     + lia. + cbn; lia.
-    + cbn [firstn]. rewrite lsum_cons, lsum_nil. apply flt_true in E. replace (c + (a + 0)) with (c + a) by ring. exact E.
+    + rewrite ?firstn_cons, ?firstn_O. rewrite lsum_cons, lsum_nil. apply flt_true in E. replace (c + (a + 0)) with (c + a) by ring. exact E.
     + intros j' Hj. lia.
   - destruct (IH _ _ _ _ H) as (j & -> & Hl & Hlt & Hall). exists (S j). split; [|split; [|split]].
     + lia. + cbn; lia.
-    + cbn [firstn]. rewrite lsum_cons. replace (c + (a + lsum (firstn (S j) t))) with (c + a + lsum (firstn (S j) t)) by ring. exact Hlt.
+    + rewrite ?firstn_cons, ?firstn_O. rewrite lsum_cons. replace (c + (a + lsum (firstn (S j) t))) with (c + a + lsum (firstn (S j) t)) by ring. exact Hlt.
     + intros j' Hj. destruct j' as [|j'].
-      * cbn [firstn]. rewrite lsum_cons, lsum_nil. apply flt_false in E. replace (c + (a + 0)) with (c + a) by ring. exact E.
-      * cbn [firstn]. rewrite lsum_cons. replace (c + (a + lsum (firstn (S j') t))) with (c + a + lsum (firstn (S j') t)) by ring.
+      * rewrite ?firstn_cons, ?firstn_O. rewrite lsum_cons, lsum_nil. apply flt_false in E. replace (c + (a + 0)) with (c + a) by ring. exact E.
+      * rewrite ?firstn_cons, ?firstn_O. rewrite lsum_cons. replace (c + (a + lsum (firstn (S j') t))) with (c + a + lsum (firstn (S j') t)) by ring.
         apply Hall. lia. Qed.
 Lemma go_none t : forall c r idx, rn2d_go t c r idx = None ->
   forall j, (j < length t)%nat -> c + lsum (firstn (S j) t) <= r.
 Proof. induction t as [|a t IH]; intros c r idx H j Hj; [cbn in Hj; lia|].
   cbn [C14_DataGen.rn2d_go] in H. destruct (flt F r (c + a)) eqn:E; [discriminate|].
-  destruct j as [|j]; cbn [firstn]; rewrite lsum_cons.
+  destruct j as [|j]; rewrite ?firstn_cons, ?firstn_O; rewrite lsum_cons.
   - rewrite lsum_nil. apply flt_false in E. replace (c + (a + 0)) with (c + a) by ring. exact E.
   - replace (c + (a + lsum (firstn (S j) t))) with (c + a + lsum (firstn (S j) t)) by ring.
     apply (IH _ _ _ H). cbn in Hj. lia. Qed.
